@@ -104,8 +104,17 @@ impl ModuleId {
     pub const NULL: ModuleId = ModuleId(0);
 
     /// Generates a unique module ID.
+    ///
+    /// The counter is process-wide and wraps around: `ModuleId::NULL` is never
+    /// handed out, so that "no module" cannot be confused with a module
+    /// created after 2^16 others in this process.
     pub fn gen() -> Self {
-        Self(MODULE_ID.fetch_add(1, Ordering::SeqCst))
+        loop {
+            let id = Self(MODULE_ID.fetch_add(1, Ordering::SeqCst));
+            if id != Self::NULL {
+                return id;
+            }
+        }
     }
 }
 
